@@ -265,6 +265,13 @@ def payloads_for(cfg, rng, variant=0):
     lens = [bs - 1, 3, (bs - 1 - 20) % bs + bs, 2 * bs + 5]
     if variant == 1:
         lens = [200 if cfg["cipher"] not in R.SLOW else 40, 17, 64, 5]
+    if variant == 3:
+        # plaintexts ending in a long run of one high byte: cut at a block boundary inside the run, the
+        # decrypted tail looks like a maximal padding and the real MAC is gone
+        geo = [(4 * bs, 0xff), (5 * bs - 1, 0xf0), (100, 236), (7, 200)]
+        if cfg["cipher"] in R.SLOW:
+            geo = geo[:2]
+        return [rb(rng, a) + bytes([v]) * (256 + 2 * bs) for (a, v) in geo]
     if variant == 2:
         lens = [(bs - 1 - 32) % bs + 2 * bs, 0, 1, 700 if cfg["cipher"] not in R.SLOW else 30]
     return [rb(rng, n) for n in lens]
@@ -488,6 +495,16 @@ def live_recordlayer(ctx, cfg, receiver, only_spec=None, variant=0):
         return
     slow = cfg["cipher"] in R.SLOW
     full = ctx.thorough() or not slow
+    if variant == 3:
+        bsz = R.CIPHER_SHAPE[cfg["cipher"]][1] or 16
+        for k, rec in enumerate(sent):
+            nb = len(rec[2]) // bsz
+            for keep in range(1, nb):
+                if slow and not ctx.thorough() and keep * bsz < 200:
+                    continue
+                judge_rl(ctx, cfg, receiver, cfgm, pr, conn, states, truth,
+                         dict(kind="trunc", k=k, cut=len(rec[2]) - keep * bsz), k, (rec[0], rec[1], rec[2][:keep * bsz]), label)
+        return
     for spec, k, rec in gen_mutations(ctx, cfg, sent, refl, other, len(states), full):
         judge_rl(ctx, cfg, receiver, cfgm, pr, conn, states, truth, spec, k, rec, label)
     # honest records are accepted in order (the left disjunct is reachable)
@@ -495,7 +512,16 @@ def live_recordlayer(ctx, cfg, receiver, only_spec=None, variant=0):
         judge_rl(ctx, cfg, receiver, cfgm, pr, conn, states, truth, dict(kind="honest", k=k), k, rec, label)
     # keyed faulty peer: degenerate records built with the REAL peer's write state, presented after the window
     ws = peer_write_state(L, receiver)
-    for (nm, rec, expect) in craft_keyed(ws, cfg["ver"], T.is13(cfgm), conn._recordLayer.recv_record_limit, rng):
+    if slow and not ctx.thorough():
+        base = list(craft_keyed(ws, cfg["ver"], T.is13(cfgm), conn._recordLayer.recv_record_limit, rng, only=""))
+        lp = [c[0] for c in base if c[1] is None]
+        crafted = [c for c in base if c[1] is not None]
+        for nm in rng.sample(lp, min(len(lp), 16)):
+            crafted += [c for c in craft_keyed(ws, cfg["ver"], T.is13(cfgm), conn._recordLayer.recv_record_limit, rng, only=nm)
+                        if c[0] == nm]
+    else:
+        crafted = list(craft_keyed(ws, cfg["ver"], T.is13(cfgm), conn._recordLayer.recv_record_limit, rng))
+    for (nm, rec, expect) in crafted:
         res = rl_recv(conn, states[-1], rec)
         ctx.case(key=("L1K", label, receiver, nm), sample=None)
         judge_keyed(ctx, "L1", label, nm, res, expect,
@@ -506,12 +532,13 @@ def live_recordlayer(ctx, cfg, receiver, only_spec=None, variant=0):
 # ------------------------------------------------------------------------------------------------
 # keyed faulty peer: structurally degenerate records that are CORRECTLY authenticated / encrypted
 
-def craft_keyed(ws, ver, tls13, recv_limit, rng):
+def craft_keyed(ws, ver, tls13, recv_limit, rng, only=None):
     """`ws` is the peer's write state (a ConnectionState with real or toy objects; it is only copied).
     Yields (name, (header type, header version, body), expect) with expect one of
       'reject'                       the record layer must refuse it
       ('accept', type, plaintext)    it IS a record the peer protected: the record layer yields exactly that
-      ('conn-reject', type, plain)   the record layer yields it, the connection must refuse it (bad type)"""
+      ('conn-reject', type, plain)   the record layer yields it, the connection must refuse it (bad type)
+    `only`: build the (expensive) long-padding records only for that name (the others come with record None)"""
     seq8 = ws.seqnum.to_bytes(8, "big")
     enc, macc = ws.encContext, ws.macContext
     hver = (3, 3) if tls13 else tuple(ver)
@@ -530,7 +557,9 @@ def craft_keyed(ws, ver, tls13, recv_limit, rng):
         return bytes(m.digest())
 
     def encrypt(pt):
-        e = copy.deepcopy(enc)
+        # the AES-CBC / toy CBC objects re-assign their chaining block `IV` (a shallow copy is independent);
+        # 3DES and RC4 keep mutable sub-objects
+        e = copy.copy(enc) if (enc.isBlockCipher and hasattr(enc, "IV")) else copy.deepcopy(enc)
         return bytes(e.encrypt(bytearray(pt)))
 
     dlen = macc.digest_size if macc is not None else 0
@@ -608,6 +637,19 @@ def craft_keyed(ws, ver, tls13, recv_limit, rng):
                   ("not-multiple", rnd(bs + 1))]
         for nm, body in bodies:
             yield ("mte-cbc-%s" % nm, (23, hver, body), "reject")
+        # long paddings (200..255) at every alignment of the record end against the MAC block size, with a
+        # wrong MAC in front of the padding, or with the padding run covering the place where the MAC would be
+        steps = 64 // bs + 1
+        for pl in (255, 254, 250, 247, 240, 236, 224, 200):
+            for j in range(steps):
+                n = (-(dlen + pl + 1)) % bs + j * bs
+                nm = "mte-cbc-longpad-wrongmac-p%d-n%d" % (pl, n)
+                yield (nm, (23, hver, encrypt(iv + rnd(n) + rnd(dlen) + bytes([pl]) * (pl + 1)))
+                       if only in (None, nm) else None, "reject")
+                m = (-(pl + 1)) % bs + j * bs
+                nm = "mte-cbc-longpad-nomac-p%d-n%d" % (pl, m)
+                yield (nm, (23, hver, encrypt(iv + rnd(m) + bytes([pl]) * (pl + 1)))
+                       if only in (None, nm) else None, "reject")
         return
     # stream cipher
     for n in sorted({0, 1, dlen - 1, dlen}):
@@ -641,15 +683,24 @@ def toy_keyed(ctx):
     lc = ctx.lean()
     rng = ctx.rng
     lines, exp, meta = [], [], []
+    MACS = [(16, 64), (20, 64), (32, 64), (48, 128)]      # md5, sha1, sha256, sha384 shapes
+    nth = 0
     for name, cfg, pr in T.path_configs(rng, ctx.thorough()):
         if cfg["cipher"] == "null" and not cfg["hasMac"]:
             continue
+        if name.startswith("mte-cbc") and not ctx.thorough():
+            # every (block size, MAC size) pair occurs in the quick tier as well
+            nth += 1
+            dl, mb = MACS[(nth + nth // 2) % 4]
+            pr = dict(pr, dlen=dl, mblock=mb, macKey=rb(rng, dl))
         for seq in (0, 7):
             cs = {"null": b"", "aead": b"", "stream": rng.randrange(0, 10 ** 5).to_bytes(8, "big"),
                   "block": rb(rng, pr["bs"])}[cfg["cipher"]]
             for limit in (16384, 64):
                 ws = T.make_state(cfg, pr, seq, cs)
                 for (nm, (t, v, body), expect) in craft_keyed(ws, cfg["ver"], T.is13(cfg), limit, rng):
+                    if "longpad" in nm and (seq, limit) != (0, 16384):
+                        continue
                     rr = T.real_recv(cfg, pr, seq, cs, False, 0, 0, limit, t, v, body)
                     case = dict(stage="toy-keyed", name=name, craft=nm, ver=list(cfg["ver"]), seq=seq, limit=limit)
                     ctx.case(key=("toy-keyed", name, cfg["ver"], nm, seq, limit, body), sample=None)
@@ -840,7 +891,8 @@ def live_connection_case(ctx, cfg, receiver, cls, mode, payloads=None):
         R.drain_post_handshake(L)
         conn = L.end(receiver).conn
         ws = peer_write_state(L, receiver)
-        chosen = [c for c in craft_keyed(ws, cfg["ver"], cfg["ver"] >= (3, 4), conn._recordLayer.recv_record_limit, rng)
+        chosen = [c for c in craft_keyed(ws, cfg["ver"], cfg["ver"] >= (3, 4), conn._recordLayer.recv_record_limit, rng,
+                                         only=cls[6:])
                   if c[0] == cls[6:]]
         if not chosen or (chosen[0][2] != "reject" and chosen[0][2][0] == "accept"):
             return
@@ -1001,6 +1053,8 @@ def live_streams(ctx):
         try:
             recv = "server" if (i + ctx.seed) % 2 else "client"
             live_recordlayer(ctx, cfg, recv)
+            if R.CIPHER_SHAPE[cfg["cipher"]][0] == "block" and (not cfg["etm"] or cfg["ver"] == (3, 0) or ctx.thorough()):
+                live_recordlayer(ctx, cfg, recv, variant=3)
             if ctx.thorough():
                 live_recordlayer(ctx, cfg, "client" if recv == "server" else "server", variant=1)
                 live_recordlayer(ctx, cfg, recv, variant=2)
@@ -1017,10 +1071,12 @@ def live_streams(ctx):
             # keyed faulty peer at connection level: every must-reject / bad-type record of this path
             probe = R.connect(cfg)
             if probe.client.state == "done" and probe.server.state == "done":
-                names = [c[0] for c in craft_keyed(peer_write_state(probe, "server"), cfg["ver"], cfg["ver"] >= (3, 4), 16384, rng)
+                names = [c[0] for c in craft_keyed(peer_write_state(probe, "server"), cfg["ver"], cfg["ver"] >= (3, 4), 16384, rng, only="")
                          if c[2] == "reject" or c[2][0] == "conn-reject"]
+                lp = [x for x in names if "longpad" in x]
+                names = [x for x in names if "longpad" not in x] + rng.sample(lp, min(len(lp), 3 if not ctx.thorough() else 12))
                 if not ctx.thorough() and cfg["cipher"] in R.SLOW:
-                    names = names[:3]
+                    names = names[:3] + names[-1:]
                 for n, nm in enumerate(names):
                     live_connection_case(ctx, cfg, ("client", "server")[(n + i) % 2], "keyed:" + nm,
                                          ("read", "getmsg")[(n // 2 + i) % 2])
